@@ -11,6 +11,10 @@ from ..framework import forward, stores_to_name, assigned_values
 # refined exceptional edges
 
 def quiet_exc_edges(ctx, func, exception_model=True):
+    if not getattr(ctx, "_fanout_anchor_checked", False):
+        from . import c08
+        c08.fanout_anchor(ctx)
+        ctx._fanout_anchor_checked = True
     """Exceptional out-edges that cannot be taken according to the call classification
     (E4/E5): the node makes no foreign/unknown call, calls no repo function with a
     non-empty escape set, contains no raise/yield/assert.  With exception_model=True
